@@ -327,15 +327,21 @@ def run_tree(dset, skip):
     src = '<dtml-tree root branches=kids%s>ROW:<dtml-var tpId>;</dtml-tree>' % (' skip_unauthorized=1' if skip else '')
     Policy.deny = frozenset(('c', str(i)) for i in dset)
     del LOG[:]
+    errtext = ''
     try:
         out = str(gclass()(src)(URL='http://h/doc', RESPONSE=_Resp(), root=root))
         obs = 'items'
-    except Unauthorized:
+    except Unauthorized as e:
+        # what the error says is shown too (an error page, <dtml-var error_value> in a handler): it is output like any other
+        try:
+            errtext = '%s %r %s' % (e, e.args, getattr(e, 'message', ''))
+        except BaseException:  # noqa  (the exception's own text may fail to render)
+            errtext = repr(e.args)
         out, obs = 'RAISED Unauthorized', 'unauthorized'
     except BaseException as e:  # noqa
         out, obs = 'RAISED %s: %s' % (type(e).__name__, str(e)[:100]), 'other:' + type(e).__name__
     import re
-    shown = [int(x[1]) for x in re.findall(r'ROW:(v\d);', out)]
+    shown = [int(x[1]) for x in re.findall(r'ROW:(v\d);', out)] + sorted({int(x[1]) for x in re.findall(r'(v\d)', errtext)})
     return {'ch': 'tree-branches', 'kind': 'initem-skip' if skip else 'initem', 'cls': 'denied', 'ev': list(LOG), 'obs': obs,
             'shown': False, 'po': 'c', 'pa': '0', 'src': src, 'dset': list(dset), 'out_items': shown, 'ctx': 'tree'}, out
 
